@@ -52,3 +52,19 @@ Definition spec_parallel (secs : list (list R * list R)) (w : R) : C :=
 Definition spec_steady (b a : list R) (w : R) (n : Z) : C := Cmult (spec_c (b, a) w) (cis (w * IZR n)).
 (* dft sum of a real block: sum_k x[k] e^{-jwk} *)
 Definition spec_dft (x : list R) (w : R) : C := (rsum cos x w 0, - rsum sin x w 0).
+
+(* nested filter lists with real coefficients (enclosure goals) *)
+Inductive rtree := RLin (b a : list R) | RCas (stages : list rtree) | RPar (branches : list rtree).
+Fixpoint spec_tree (t : rtree) (w : R) : C :=
+  match t with
+  | RLin b a => spec_c (b, a) w
+  | RCas l => fold_right Cmult (RtoC 1) (map (fun s => spec_tree s w) l)
+  | RPar l => fold_right Cplus (RtoC 0) (map (fun s => spec_tree s w) l)
+  end.
+(* the same tree with its coefficients seen as complex numbers *)
+Fixpoint rtree_inj (t : rtree) : @ftree C :=
+  match t with
+  | RLin b a => TLin (map RtoC b) (map RtoC a)
+  | RCas l => TCas (map rtree_inj l)
+  | RPar l => TPar (map rtree_inj l)
+  end.
